@@ -28,10 +28,20 @@ pub fn drive(seed: u64, outdir: &str, thorough: bool) {
     for i in 0..n_files {
       let dir = if big { format!("d{}/", i % 17) } else { ["", "a/", "a/b/", "c/"][rng.below(4)].to_string() };
       let path = format!("{dir}f{i}.js");
-      let fault = match rng.below(if big { 40 } else { 9 }) { 0 => "empty", 1 => "non-utf8", 2 if thorough && !big => "oversized", _ => "ok" };
+      // the first small tree always carries one file beyond the size limit with few lines (eligible: the limit is
+      // size AND line count) and, in the thorough tier, one beyond both limits (skipped)
+      let fault = if !big && tree == 0 && i == 0 { "large-few-lines" }
+        else { match rng.below(if big { 40 } else { 9 }) { 0 => "empty", 1 => "non-utf8", 2 if thorough && !big => "oversized", _ => "ok" } };
       let content: Vec<u8> = match fault {
         "empty" => vec![],
         "non-utf8" => b"foo(1); \xff\xfe foo(2);\n".to_vec(),
+        "large-few-lines" => {
+          let mut s = String::from("foo(1);\n");
+          let filler = format!("// {}\n", "x".repeat(99_996));
+          for _ in 0..32 { s.push_str(&filler); }
+          s.push_str("foo(2); bar(\"é\");\n");
+          s.into_bytes()
+        }
         "oversized" => {
           let mut s = String::new();
           for _ in 0..200_100 { s.push_str("// padding line..\n"); }
@@ -70,7 +80,7 @@ pub fn drive(seed: u64, outdir: &str, thorough: bool) {
     });
     let mut all: Vec<String> = refs.into_iter().flatten().collect();
     all.sort();
-    let faulty = files.iter().filter(|f| f.2 != "ok").count();
+    let faulty = files.iter().filter(|f| f.2 != "ok" && f.2 != "large-few-lines").count();
     expected.insert(tree, (all, faulty));
     p.remove();
   }
